@@ -42,6 +42,7 @@ func init() {
 			{ID: "C15.R23", Text: "fatal stays fatal: the module never calls recover() (positive control: the fatal exits are counted)", Run: neverRecovers},
 			{ID: "C15.R24", Text: "a failed sequence-number query is an error: AsyncOp.Wait reports this operation's own outcome — err≠nil → err, else select{ctx.Done→Cancel, signal}, ctx.Err() — on a record that is not shared with another operation (same rule as C20.R1)", Run: c20r1},
 			{ID: "C15.R25", Text: "a checkpoint beyond the bucket's high sequence number reaches the guard that refuses it: the file backend returns what the file holds, whatever bucket id a document carries (same rule as C02.R15)", Run: fileLoadExact},
+			{ID: "C15.R26", Text: "error discipline, module-wide: of every call that hands back an error, the failure reaches whoever asked (returned, panicked, sent, handed to a continuation, wrapped and then one of these — or a panic / error return that runs only where it is non-nil); the sites where it does not are the ones confirmed by reading (frozen table: package, callee, count, reason)", Run: errorDiscipline},
 			{ID: "C15.R6", Text: "bounded reopen then fail-stop (same rule as C12.R3)", Run: c12r3},
 		},
 	})
